@@ -165,7 +165,12 @@ for set_type in (set, frozenset):
 
 register_node_traverser(
     bytes,
-    flatten_fn=lambda x: ((x.decode('raw_unicode_escape'),), None),
+    # Decode as latin-1: every byte maps to the code point of the same value.
+    # (Decoding with 'raw_unicode_escape' gives the same text except that it
+    # *interprets* escape-like byte sequences, so b'\\u0041' came back as
+    # b'A'.)  Encoding with 'raw_unicode_escape' inverts latin-1 decoding and
+    # still reads documents written before this change.
+    flatten_fn=lambda x: ((x.decode('latin-1'),), None),
     unflatten_fn=lambda values, _: values[0].encode('raw_unicode_escape'),
     path_elements_fn=lambda x: (IdentityElement(),),
 )
